@@ -11,11 +11,15 @@ import subprocess
 import time
 
 
-def run_tests(work, crate, tests, timeout=1800, log=None):
+def run_tests(work, crate, tests, timeout=1800, log=None, thorough=False):
     env = dict(os.environ)
     env['CARGO_NET_OFFLINE'] = 'true'
     env['RUSTFLAGS'] = (env.get('RUSTFLAGS', '') + ' --cfg verif_nx -A unexpected_cfgs -A dead_code -A unused_imports').strip()
     env['CARGO_TARGET_DIR'] = os.path.join(work, 'target-nx')
+    if thorough:
+        env['VERIF_NX_THOROUGH'] = '1'
+    else:
+        env.pop('VERIF_NX_THOROUGH', None)
     cmd = ['cargo', 'test', '-p', crate, '--lib', '--offline', '--', 'verif_nx_', '--test-threads', '16', '--show-output']
     t0 = time.time()
     try:
